@@ -64,6 +64,8 @@ def check_case(ctx, out, descs, w, mode, origin):
     canon = dict(op='solution', mode=mode, untranslated=untranslated, w_is_zero=(w == 0))
     if drv is None:
         return
+    if gate_tie(comps, w, wres):
+        out.skip('tie_margin'); return
     trig, harm = gc.params_for(comps, w)
     req = dict(components=[gc.comp_json(c) for c in comps], w=core.q(w), wres=core.q(wres), trig=trig, harm=harm)
     sp = drv.call('cc_spec_net', **req)
@@ -74,7 +76,7 @@ def check_case(ctx, out, descs, w, mode, origin):
         out.skip('spec_net_invalid'); return
     ex = exact_solution(drv, sp['net'])
     if ex is None:
-        out.count('illposed'); return
+        out.count('illposed:' + origin); return
     pot_x, volt_x, cur_x = ex
     scale = max([abs(v) for v in list(pot_x.values()) + list(cur_x.values())] + [1.0])
     ymax = max([abs(core.cfloat(b['e']['a'])) for b in sp['net']['branches']] + [1.0])
@@ -90,7 +92,7 @@ def check_case(ctx, out, descs, w, mode, origin):
                       impl=dict(exception=repr(e)), descs=descs, w=w, mode=mode)
         return
     if A.size and (not np.all(np.isfinite(A)) or np.linalg.cond(A) > 1e8):
-        out.skip('ill_conditioned'); return
+        out.skip('ill_conditioned:' + origin); return
     # ---- correspondence: network and wrappers
     if gc.finite_net(net):
         m = drv.call('cc_transform', **req)
@@ -158,8 +160,81 @@ def check_case(ctx, out, descs, w, mode, origin):
         except Exception as e:
             out.spec_fail(dict(canon, symptom='raises', exc=gc.tag(e)), f'power raises {type(e).__name__}', inp, descs=descs, w=w, mode=mode)
             return
-    out.nontrivial((tuple(kinds), len(labels), mode, w == 0))
+    out.count('verified:' + origin)
+    out.nontrivial((tuple(kinds), len(labels), mode, w == 0, origin == 'high_frequency' and round(math.log10(max(w, 1e-9)))))
     out.sample(dict(inp, origin=origin))
+
+def gate_tie(comps, w, wres) -> bool:
+    """True when, for some source, the gate decided in binary64 as the code computes it
+    (`np.abs(w - w_src) > w_res`, resp. `|w/w0 - n| > w_res/w0`) differs from the decision on the
+    exact rationals of the same floats (`|w - w_src| ≤ w_res` exactly): only possible within a
+    few ulp of the boundary itself; such cases are counted as skipped, never judged"""
+    from fractions import Fraction
+    W, R = Fraction(w), Fraction(wres)
+    for c in comps:
+        if 'source' not in c.type or 'w' not in c.value:
+            continue
+        ws = float(c.value['w'])
+        if c.type.startswith('periodic'):
+            if ws <= 0: continue
+            n = float(np.round(w / ws))
+            fl_off = bool(np.abs(w / ws - n) > wres / ws)
+            k = (W / Fraction(ws)).__floor__()
+            ex_on = any(abs(W - m * Fraction(ws)) <= R for m in (k, k + 1))
+            if fl_off == ex_on:
+                return True
+        else:
+            fl_off = bool(np.abs(w - ws) > wres)
+            ex_on = abs(W - Fraction(ws)) <= R
+            if fl_off == ex_on:
+                return True
+    return False
+
+HF_SOURCES = [100.0, 1000.0, 1.0e4, 1.0e5, 2.0 ** 10, 2.0 ** 14, 314.159, 12345.678, 5.0e4]
+HF_K = [0.5, 1.0, 1.5, 2.0, 5.0, 10.0, 100.0]
+
+def high_frequency_cases(rng, wres):
+    """sources far up the frequency axis, analysed at w_src ± k·w_res and w_src·(1 ± 2^-20):
+    an absolute window of w_res must not widen with the magnitude of w_src.  Yields
+    (descs, w, mode)."""
+    import math
+    for ws in HF_SOURCES:
+        p2 = 2.0 ** -round(math.log2(ws))                  # reactances of order 1 at w_src
+        for kind in ('ac_voltage_source', 'ac_current_source', 'periodic_voltage_source', 'periodic_current_source'):
+            n = 1 if not kind.startswith('periodic') else rng.choice([1, 2, 3])
+            w0 = ws / n if kind.startswith('periodic') and ws / n * n == ws else ws
+            if kind.startswith('periodic'): n = round(ws / w0)
+            offs = [0.0] + [s * k * wres for k in HF_K for s in (1, -1)] + [ws * 2.0 ** -20, -ws * 2.0 ** -20]
+            for off in offs:
+                w = ws + off
+                inner = rng.choice([0.0, 2.0, 0.5])
+                if kind == 'ac_voltage_source':
+                    src = dict(fn=kind, id='S', nodes=['1', '0'], args=dict(V=4.0, R=inner, w=ws, phi=gc.phase(rng)))
+                elif kind == 'ac_current_source':
+                    src = dict(fn=kind, id='S', nodes=['0', '1'], args=dict(I=2.0, G=inner, w=ws, phi=gc.phase(rng)))
+                elif kind == 'periodic_voltage_source':
+                    src = dict(fn=kind, id='S', nodes=['1', '0'], args=dict(wavetype=rng.choice(['rect', 'saw', 'tri'] if n % 2 else ['saw']),
+                                                                              V=4.0, w=w0, phi=gc.phase(rng), R=inner))
+                else:
+                    src = dict(fn=kind, id='S', nodes=['0', '1'], args=dict(wavetype=rng.choice(['rect', 'saw', 'tri'] if n % 2 else ['saw']),
+                                                                              I=2.0, w=w0, phi=gc.phase(rng), G=inner))
+                descs = [dict(fn='ground', id='gnd', nodes=['0'], args={}), src,
+                         dict(fn='resistor', id='R1', nodes=['1', '2'], args=dict(R=2.0)),
+                         dict(fn=rng.choice(['capacitor', 'inductance']), id='X', nodes=['2', '0'], args=None),
+                         dict(fn='resistor', id='R2', nodes=['1', '0'], args=dict(R=4.0))]
+                descs[3]['args'] = dict(C=p2) if descs[3]['fn'] == 'capacitor' else dict(L=p2)
+                if rng.random() < 0.5:     # a second source oscillating exactly at the analysis frequency
+                    descs.append(dict(fn='ac_current_source', id='J', nodes=['0', '2'], args=dict(I=1.0, G=0.25, w=w, phi=0.5)))
+                yield descs, w, rng.choice(['peak', 'rms'])
+    for kind in ('dc_voltage_source', 'dc_current_source'):    # DC sources: the window around 0
+        for off in [0.0] + [k * wres for k in HF_K] + [float(np.nextafter(wres, 1.0)), float(np.nextafter(wres, 0.0))]:
+            src = dict(fn=kind, id='S', nodes=['1', '0'], args=dict(V=4.0, R=1.0)) if kind == 'dc_voltage_source' else \
+                  dict(fn=kind, id='S', nodes=['0', '1'], args=dict(I=2.0, G=0.5))
+            descs = [dict(fn='ground', id='gnd', nodes=['0'], args={}), src,
+                     dict(fn='resistor', id='R1', nodes=['1', '2'], args=dict(R=2.0)),
+                     dict(fn='capacitor', id='X', nodes=['2', '0'], args=dict(C=64.0)),
+                     dict(fn='resistor', id='R2', nodes=['1', '0'], args=dict(R=4.0))]
+            yield descs, off, rng.choice(['peak', 'rms'])
 
 def frequencies(rng, descs, wres):
     ws = [0.0]
@@ -178,10 +253,20 @@ def run(ctx, out):
                 'sources with and without internal R / G, adversarial node labels and ids, optional ground at a random position; '
                 'values dyadic/small integers (70 %) or decades; amplitudes of either sign, phases in all quadrants; frequencies '
                 '0, every source frequency, dyadic offsets just inside (2^-11) and outside (2^-9) the default resolution, others; '
+                'plus a high-frequency sweep: ac / periodic sources at 1e2 … 1e5, 2^10, 2^14 analysed at w_src ± k·w_res, k ∈ {0.5, 1, 1.5, 2, 5, 10, 100}, '
+                'and w_src·(1 ± 2^-20), DC sources at k·w_res (gate decided on the exact rationals; cases where binary64 and exact '
+                'decision differ — the boundary itself — are skipped as tie_margin); '
                 'modes dc / peak / rms; a case is non-trivial when the intended network is well-posed (exact tableau) and the '
                 'reported potentials, voltages, currents equal its exact solution; distinct by (kind set, node count, mode, w = 0)')
     for descs, w, mode in CORPUS:
         check_case(ctx, out, descs, w, mode, 'corpus')
+    # the resolution window is absolute: sources over decades up to 1e5 analysed at w_src ± k·w_res and w_src·(1 ± 2^-20)
+    hf = list(high_frequency_cases(ctx.rng('high_frequency'), default_wres()))
+    if ctx.quick:
+        hf = ctx.rng('high_frequency_sample').sample(hf, 260)
+    for descs, w, mode in hf:
+        if ctx.time_left() < 30: out.notes.append('high-frequency sweep cut by budget'); break
+        check_case(ctx, out, descs, w, mode, 'high_frequency')
     rng = ctx.rng('random')
     n = 160 if ctx.quick else 1500
     for k in range(n):
@@ -232,6 +317,10 @@ CORPUS = [
 ]
 
 def replay(ctx, out, rp):
+    if ctx.driver is None and getattr(ctx.build, 'driver_baseline', None) is not None:
+        # the regenerated definitions do not build: replay against the last good driver, as the check itself does
+        try: ctx.driver = core.Driver(ctx.build.driver_baseline)
+        except core.DriverError: pass
     descs = rp.get('descs')
     if descs is None:
         raise SystemExit('replay file carries no component descriptions')
